@@ -19,6 +19,8 @@ package astdiff
 //@   ensures val.t == rtype(v)
 //@   ensures vSize(val) == rvSize(v) + 1
 //@   ensures [C08,C17] the-snapshot-is-well-formed: wfV(val)
+//@   ensures [C05,C17] comment-groups-scopes-and-object-links-are-position-less-placeholders: rtype(v) == gt("CommentGroupPtrType") || rtype(v) == gt("ScopePtrType") || rtype(v) == gt("ObjectPtrType") ==> val.isNil && !val.IsNode && val.pos == 0 && val.end == 0 && len(val.Comments) == 0
+//@   ensures [C05,C17] a-position-is-kept-as-a-plain-value: rtype(v) == gt("PosType") ==> !val.IsNode && val.value == rvIface(v)
 //@   unfold-post wfV(val) == wfVBody(val)
 //@   unfold-post vSize(val) == rvSize(v) + 1
 //@   loop 0
